@@ -491,8 +491,8 @@ def configs(chk):
     out.append({'L': 8, 'N': 3, 'opts': 0, 'sizesA': [], 'sizesB': [7] * 5, 'preseed': [[8, False, 9008], [9, False, 9009]]})
     out.append({'L': 8, 'N': 4, 'opts': 4, 'sizesA': [], 'sizesB': [7] * 5, 'preseed': [[8, False, 9008], [9, True, 9009]]})
     # N <= 0 means "keep everything": nothing may ever be deleted, whatever the sign
-    out.append({'L': 8, 'N': -1, 'opts': 0, 'sizesA': [7, 7], 'sizesB': [7] * 4})
-    out.append({'L': 20, 'N': -5, 'opts': 4, 'sizesA': [7, 7, 7], 'sizesB': [7] * 5})
+    out.append({'L': 8, 'N': -1, 'opts': 0, 'sizesA': [], 'sizesB': [7] * 5})
+    out.append({'L': 20, 'N': -5, 'opts': 4, 'sizesA': [], 'sizesB': [7] * 7})
     if thorough:
         out.append({'L': 20, 'N': 3, 'opts': 5, 'sizesA': [7], 'sizesB': [7] * 8, 'preseed': [[7, True, 9007], [8, True, 9008], [9, True, 9009]]})
         out.append({'L': 8, 'N': 2, 'opts': 1, 'sizesA': [], 'sizesB': [7] * 4, 'preseed': [[98, False, 9098], [99, False, 9099]]})
